@@ -1029,3 +1029,12 @@ func (p *PathSummary) RelationOf(a, b string) int {
 	}
 	return set
 }
+
+// IsNamed reports whether t is the named type n or a pointer to it.
+func IsNamed(t types.Type, n *types.Named) bool {
+	if pt, ok := t.(*types.Pointer); ok {
+		t = pt.Elem()
+	}
+	nt, ok := t.(*types.Named)
+	return ok && n != nil && nt.Obj() == n.Obj()
+}
